@@ -166,20 +166,15 @@ impl Config {
         if self.nested && self.pass.is_empty() && !self.per_layer && (1..=3).contains(&self.layers.len()) {
             return self.build_nested();
         }
-        let made: Vec<(Box<dyn Layer<Registry> + Send + Sync>, SharedStorage)> = self.layers.iter().map(|f| self.make_layer::<Registry>(f)).collect();
+        // the global level filter is its own `Layered` level right above the registry (inside a
+        // `Vec` of layers a `LevelFilter` would not be consulted by call sites whose interest another
+        // element of the `Vec` declared `always`: tracing-subscriber combines interests by maximum there)
+        type Base = tracing_subscriber::layer::Layered<Option<LevelFilter>, Registry>;
+        let base: Base = Registry::default().with(self.global.map(level_filter));
+        let made: Vec<(Box<dyn Layer<Base> + Send + Sync>, SharedStorage)> = self.layers.iter().map(|f| self.make_layer::<Base>(f)).collect();
         let (mut made_layers, storages): (Vec<_>, Vec<SharedStorage>) = made.into_iter().map(|(l, s)| (Some(l), s)).unzip();
-        let mut layers: Vec<Box<dyn Layer<Registry> + Send + Sync>> = vec![];
-        if let Some(g) = self.global {
-            let lf = match g {
-                0 => LevelFilter::ERROR,
-                1 => LevelFilter::WARN,
-                2 => LevelFilter::INFO,
-                3 => LevelFilter::DEBUG,
-                _ => LevelFilter::TRACE,
-            };
-            layers.push(Box::new(lf));
-        }
-        for (i, (f, st)) in self.layers.iter().zip(&storages).enumerate() {
+        let mut layers: Vec<Box<dyn Layer<Base> + Send + Sync>> = vec![];
+        for i in 0..self.layers.len() {
             if self.pass.contains(&i) {
                 layers.push(match i {
                     0 => Box::new(PassThrough::<0>),
@@ -188,14 +183,12 @@ impl Config {
                     _ => Box::new(PassThrough::<3>),
                 });
             }
-            // a level threshold is given as the real `LevelFilter` (it carries a level hint)
-            let _ = (f, st);
             layers.push(made_layers[i].take().expect("layer made"));
         }
         if self.pass.contains(&self.layers.len()) || self.per_layer {
             layers.push(Box::new(PassThrough::<9>));
         }
-        (Dispatch::new(Registry::default().with(layers)), storages)
+        (Dispatch::new(base.with(layers)), storages)
     }
 }
 
